@@ -1,20 +1,19 @@
 #!/bin/bash
-# usage: tools/confirm_seeded.sh <dir with patch.diff demo.py> <PID> [check-args...]
-# 1. demo passes on pristine /repo copy, fails with patch; 2. pinned suite unchanged with patch; 3. quick check of PID reports a violation.
+# usage: tools/confirm_seeded.sh <dir with patch.diff demo.py> <PID> <scratch worktree of /repo> [check-args...]
+# In the scratch worktree: 1. demo passes pristine, fails with the patch; 2. pinned suite unchanged with the patch;
+# 3. quick check of PID (VERIF_REPO=<worktree>) reports a violation.  The worktree is restored afterwards.
 set -u
-dir="$1"; pid="$2"
-d=$(mktemp -d /tmp/seed-XXXXXX)
-trap 'rm -rf "$d"' EXIT
-mkdir -p "$d/clean" "$d/mut"
-rsync -a --exclude .git --exclude htmlcov --exclude docs /repo/ "$d/clean/"
-rsync -a --exclude .git --exclude htmlcov --exclude docs /repo/ "$d/mut/"
-( cd "$d/mut" && patch -p1 -s < "$dir/patch.diff" ) || { echo "RESULT patch-failed"; exit 3; }
-( cd "$d/clean" && PYTHONPATH="$d/clean" timeout 300 /venv/bin/python "$dir/demo.py" >/dev/null 2>&1 ); c=$?
-( cd "$d/mut" && PYTHONPATH="$d/mut" timeout 300 /venv/bin/python "$dir/demo.py" >/dev/null 2>&1 ); m=$?
+dir="$1"; pid="$2"; wt="$3"; shift 3
+[ -z "$(git -C "$wt" status --short)" ] || { echo "RESULT worktree-not-clean"; exit 3; }
+( cd "$wt" && PYTHONPATH="$wt" timeout 300 /venv/bin/python "$dir/demo.py" >/dev/null 2>&1 ); c=$?
+git -C "$wt" apply "$dir/patch.diff" || { echo "RESULT patch-failed"; exit 3; }
+trap 'git -C "$wt" checkout -- . ; git -C "$wt" clean -fdq' EXIT
+( cd "$wt" && PYTHONPATH="$wt" timeout 300 /venv/bin/python "$dir/demo.py" >/dev/null 2>&1 ); m=$?
 echo "demo: pristine exit=$c patched exit=$m"
 if [ "${SKIP_SUITE:-0}" != "1" ]; then
-( cd "$d/mut" && timeout 1200 /venv/bin/python -m pytest -q -p no:cacheprovider --timeout=900 --continue-on-collection-errors --junitxml="$d/j.xml" >/dev/null 2>&1 )
-/venv/bin/python - "$d/j.xml" <<'PY'
+j=$(mktemp /tmp/junit-XXXXXX.xml)
+( cd "$wt" && timeout 1200 /venv/bin/python -m pytest -q -p no:cacheprovider --timeout=900 --continue-on-collection-errors --junitxml="$j" >/dev/null 2>&1 )
+/venv/bin/python - "$j" <<'PY'
 import json, sys, xml.etree.ElementTree as ET
 passed=set()
 for tc in ET.parse(sys.argv[1]).getroot().iter("testcase"):
@@ -23,7 +22,9 @@ for tc in ET.parse(sys.argv[1]).getroot().iter("testcase"):
 base=set(json.load(open("/root/.vp/BASELINE.json"))["stable_pass"])
 print(f"suite: passed={len(passed)} baseline-not-passing={len(base-passed)}", sorted(base-passed)[:3])
 PY
+rm -f "$j"
 fi
-shift 2
-VERIF_REPO="$d/mut" timeout 1500 /venv/bin/python /verif/check.py "$pid" --tier quick "$@" 2>&1 | grep -v "^KNOWN" | cut -c1-260 | tail -6
+if [ "${SKIP_CHECK:-0}" != "1" ]; then
+VERIF_REPO="$wt" timeout 1500 /venv/bin/python /verif/check.py "$pid" --tier quick "$@" 2>&1 | grep -v "^KNOWN" | cut -c1-260 | tail -6
 echo "check exit=${PIPESTATUS[0]}"
+fi
